@@ -398,7 +398,7 @@ def run_corpus_unit(args):
 
 
 def write_replay(prop, sub, stratum, tier, seed, viol):
-    d = os.path.join(ROOT, "replays", "found")
+    d = os.environ.get("VERIF_FOUND_DIR") or os.path.join(ROOT, "replays", "found")
     os.makedirs(d, exist_ok=True)
     rec = dict(
         property=prop,
@@ -556,8 +556,9 @@ def run_property(prop, tier):
     )
     if exhaustive_subs and len(exhaustive_subs) == len(subs):
         evidence["coverage"]["exhaustive"] = True
-    os.makedirs(os.path.join(ROOT, "evidence"), exist_ok=True)
-    with open(os.path.join(ROOT, "evidence", prop + ".json"), "w") as f:
+    edir = os.environ.get("VERIF_EVIDENCE_DIR") or os.path.join(ROOT, "evidence")
+    os.makedirs(edir, exist_ok=True)
+    with open(os.path.join(edir, prop + ".json"), "w") as f:
         f.write(json.dumps(evidence, indent=1, sort_keys=True, default=_jdefault))
 
     # ---- report
